@@ -570,7 +570,15 @@ class C01(Property):
         joined_sep = {"schema": {"t": "joined", "name": "j", "opt": False, "k": 1,
                                  "member": {"t": "leaf", "name": None, "opt": False, "k": 0}},
                       "kinds": kinds_i, "sep": "_", "value": [{"s": "a ,b"}, {"s": "c"}]}
-        return [overlap, time_us, float_big, sparse_order, regex_sep, ceiling, sparse_blank, bool_custom, joined_sep]
+        extra = []
+        try:
+            import json as _json, os as _os
+            _p = _os.path.join(_os.path.dirname(__file__), 'c01_corpus.json')
+            if _os.path.exists(_p):
+                extra = _json.load(open(_p))
+        except Exception:
+            extra = []
+        return extra + [overlap, time_us, float_big, sparse_order, regex_sep, ceiling, sparse_blank, bool_custom, joined_sep]
 
     def generate(self, rng, n, tier):
         for _ in range(n):
@@ -807,10 +815,19 @@ class C01(Property):
                 return "KF-C01-d"
         # KF-C01-e predicts: besides that order, only BLANK sparse members differ — compared on states, so
         # that list lengths and every other member count
+        def normal(st):
+            # the two normalisations feed each other (a member whose only pairs belonged to blank sparse members is
+            # pair-less once those are stripped): apply them until nothing changes, on both sides alike
+            cur = order_normal(st, schema)
+            for _ in range(64):
+                nxt = strip_blank_sparse(drop_pairless_tail(cur, schema), schema)
+                if nxt == cur:
+                    break
+                cur = nxt
+            return cur
+
         for a1 in (True, False):
-            n0 = strip_blank_sparse(drop_pairless_tail(order_normal(trip(a1), schema), schema), schema)
-            n1 = strip_blank_sparse(drop_pairless_tail(order_normal(end_state, schema), schema), schema)
-            if n0 == n1:
+            if normal(trip(a1)) == normal(end_state):
                 return "KF-C01-e"
         return None
 
